@@ -785,6 +785,20 @@ class Effect(DaeObject):
                 if value is not None:
                     shadnode.append(getPropNode(prop, value))
 
+        # the bump map is a <texture> inside an <extra>, which is where load looks for it
+        bumpnode = self.xmlnode.find('.//%s//%s' % (tag('extra'), tag('texture')))
+        if self.bumpmap is not None:
+            self.bumpmap.save()
+            if bumpnode is None:
+                tecnode.append(E.extra(E.technique(E.bump(copy.deepcopy(self.bumpmap.xmlnode)), profile='FCOLLADA')))
+            else:
+                bumpnode.set('texture', self.bumpmap.sampler.id)
+                bumpnode.set('texcoord', self.bumpmap.texcoord)
+        elif bumpnode is not None:
+            for parent in self.xmlnode.iter():
+                if bumpnode in list(parent):
+                    parent.remove(bumpnode)
+
         double_sided_node = profilenode.find('.//%s//%s' % (tag('extra'), tag('double_sided')))
         if double_sided_node is None or double_sided_node.text is None:
             extranode = profilenode.find(tag('extra'))
